@@ -1,3 +1,7 @@
 import XProofs.Properties.C20
 #print axioms Properties.C20.C20_order_independent_partial
-#print axioms Capstone.setValue_consistent
+#print axioms Properties.C20.C20_writes_commute
+#print axioms Properties.C20.C20_set_value
+#print axioms Properties.C20.C20_set_expr
+#print axioms Properties.C20.C20_histories
+#print axioms Properties.C20.C20_order_matters_outside_scope
